@@ -147,6 +147,16 @@ def check_history(world, history, res, tag, versions="increasing"):
     try:
         for step_i, (op, u, t) in enumerate(history):
             text = world.texts[u][t] if isinstance(t, int) else t
+            if op == "disk":
+                # the file appears on disk (saved by another program); it is not an open document
+                open(os.path.join(world.root, world.fname[u]), "w").write(text)
+                continue
+            if op == "tokens":
+                # a request about a document, open or not: requests do not change what the server knows
+                rid_ = s.tokens(world.uris[u])
+                s.wait_response(rid_, 20.0)
+                res.count("requests-between-notifications")
+                continue
             if versions == "increasing":
                 version += 1
             elif versions == "per-document":
@@ -269,8 +279,14 @@ def shard(shard_i, nshards, payload):
             [("open", "a", 5), ("open", "c", 2), ("open", "b", 5), ("change", "c", 0), ("change", "b", 0), ("change", "c", 0)],
             [("open", "b", 5), ("open", "c", 0), ("open", "a", 5), ("change2", "c", 0), ("open", "c", 1)],
         ]
+        three += [
+            [("open", "a", 4), ("disk", "b", 0), ("tokens", "b", 0), ("change", "a", 4), ("change", "a", 3), ("change", "a", 4)],
+            [("disk", "b", 0), ("tokens", "b", 0), ("open", "a", 4), ("tokens", "a", 0), ("change", "a", 4)],
+            [("open", "a", 4), ("disk", "b", 0), ("tokens", "b", 0), ("open", "b", 1), ("change", "a", 4), ("tokens", "c", 0)],
+            [("open", "b", 4), ("disk", "a", 0), ("tokens", "a", 0), ("change", "b", 4)],
+        ]
         for j, h in enumerate(three):
-            if j % nshards == shard_i % len(three) and shard_i < 2 * len(three):
+            if (j + shard_i) % len(three) < 2 or nshards < len(three):
                 ok = check_history(world, h, res, "three-documents", policies[(j + shard_i) % 4])
                 res.count("three-document-histories")
                 if ok:
